@@ -250,8 +250,28 @@ class Coordinator:
             if extra_poll is not None and extra_poll():
                 return False
             if time.time() > deadline:
-                raise CoordError("timeout (%ss) waiting for %s; pcs=%s" % (self.step_timeout, what, self.pcs()))
+                raise CoordError("timeout (%ss) waiting for %s; pcs=%s; %s" % (self.step_timeout, what, self.pcs(), self.diag()))
             self._io(0.001 if extra_poll else 0.05)
+
+    def diag(self):
+        """where every thread of every worker process is (for infrastructure error messages)"""
+        out = []
+        for p, pr in sorted(self.procs.items()):
+            if pr.poll() is not None:
+                out.append("p%d: exited rc=%s" % (p, pr.returncode))
+                continue
+            try:
+                for tid in sorted(os.listdir("/proc/%d/task" % pr.pid)):
+                    base = "/proc/%d/task/%s/" % (pr.pid, tid)
+                    st = open(base + "stat").read().rsplit(")", 1)[1].split()[0]
+                    sc = " ".join(open(base + "syscall").read().split()[:3])
+                    out.append("p%d/%s: %s syscall %s" % (p, tid, st, sc))
+            except OSError as e:
+                out.append("p%d: %s" % (p, e))
+        acts = ["(%d,%d) pc=%s pending=%s blocked=%s deferred=%s conn=%s" % (a.p, a.t, a.pc, a.pending is not None, a.blocked,
+                                                                          a.deferred is not None, a.conn is not None)
+                for a in self.actors.values()]
+        return "threads: " + "; ".join(out) + " | actors: " + "; ".join(acts) + " | lock model %s" % sorted(self.lock)
 
     aborting = None
     settling = False
